@@ -35,8 +35,14 @@ def text_parts(s):
     return neg, [int(c) for c in i], [int(c) for c in f]
 
 
+_EXCHANGE_LEVEL_CALLS = [0]
+
+
 async def exchange_level(rnd):
-    """the order entry points of the Exchange classes: operation / pair / order type -> endpoint, side, symbol"""
+    """the order entry points of the Exchange classes: operation / pair / order type -> endpoint, side, symbol;
+    every other call on exchange objects that were first asked for the pair's information (as strategies do)"""
+    _EXCHANGE_LEVEL_CALLS[0] += 1
+    warm = _EXCHANGE_LEVEL_CALLS[0] % 2 == 0
     import basana as bs
     from basana.external.binance import exchange as binance
     from basana.external.bitstamp import exchange as bitstamp
@@ -46,6 +52,8 @@ async def exchange_level(rnd):
         d = bs.realtime_dispatcher()
         ex = binance.Exchange(d, api_key=wd.KEY, api_secret=wd.SECRET, config_overrides=wd.overrides(lb))
         pair = bs.Pair("BTC", "USDT")
+        if warm:
+            await ex.get_pair_info(pair)
         for acct, prefix in ((ex.spot_account, "/api/v3/order"), (ex.cross_margin_account, "/sapi/v1/margin/order"),
                              (ex.isolated_margin_account, "/sapi/v1/margin/order")):
             for op in (OrderOperation.BUY, OrderOperation.SELL):
@@ -67,6 +75,8 @@ async def exchange_level(rnd):
                                 lb.requests[n0:], err))
         bx = bitstamp.Exchange(d, api_key=wd.KEY, api_secret=wd.SECRET, config_overrides=wd.overrides(lb))
         bpair = bs.Pair("BTC", "USD")
+        if warm:
+            await bx.get_pair_info(bpair)
         for op in (OrderOperation.BUY, OrderOperation.SELL):
             side = "buy" if op == OrderOperation.BUY else "sell"
             a, p = wd.gen_decimal(rnd), wd.gen_decimal(rnd)
@@ -83,6 +93,11 @@ async def exchange_level(rnd):
                 out.append(({"key": ("bitstamp", "Exchange", kind), "dec": exp, "omitted": [], "present": {}, "path": path},
                             lb.requests[n0:], err))
     return out
+
+
+def bs_pair():
+    from basana.core.pair import Pair
+    return Pair("BTC", "USD")
 
 
 def decode_checks(chk, rnd):
@@ -200,6 +215,35 @@ def run(chk):
         mcases.append(f"({zlit(ms)}%Z, {zlit(secs)}%Z, {zlit(us)}%Z)")
         if datetime.timedelta(milliseconds=ms) != delta:
             chk.violation("decode:timestamp", f"{ms} ms decoded as {dt.isoformat()}", {"ts": ms})
+    # decoding is into UTC wherever the process runs: the same under other time zones of the process
+    import os
+    import time as _time
+    from basana.external.bitstamp import orders as sorders
+    tz0 = os.environ.get("TZ")
+    try:
+        for tz in ("EST5EDT", "JST-9", "Europe/Madrid", "UTC"):
+            os.environ["TZ"] = tz
+            _time.tzset()
+            for _ in range(common.tier_n(chk.tier, 40, 800)):
+                s = rnd.randint(lo, hi)
+                ms = s * 1000 + rnd.randint(0, 999)
+                us_ts = s * 1000000 + rnd.randint(0, 999999)
+                got = [("binance ms", ms, bhelpers.timestamp_to_datetime(ms), datetime.timedelta(milliseconds=ms)),
+                       ("bitstamp order us", us_ts,
+                        sorders.Order(bs_pair(), {"id": 1, "microtimestamp": str(us_ts), "amount_at_create": "1",
+                                                  "amount_str": "1", "price_str": "1", "order_type": 0}).datetime,
+                        datetime.timedelta(microseconds=us_ts))]
+                chk.count("timestamps_decoded_under_other_tz", len(got))
+                for what, raw, dtv, exp in got:
+                    if dtv.utcoffset() != datetime.timedelta(0) or dtv - EPOCH != exp:
+                        chk.violation("decode:timestamp", f"{what} {raw} decoded as {dtv.isoformat()} with the process in "
+                                                          f"time zone {tz}", {"ts": raw, "tz": tz, "what": what})
+    finally:
+        if tz0 is None:
+            os.environ.pop("TZ", None)
+        else:
+            os.environ["TZ"] = tz0
+        _time.tzset()
     try:
         from basana.external.bitstamp import trades as strades
         for _ in range(common.tier_n(chk.tier, 300, 10000)):
